@@ -26,6 +26,7 @@ Response: `ok <x features joined by space> <v1> <v2> …` with one `v` per probe
 `r:<xhex>` clap default rewritten before the macro, `w:<xhex>` value written after the macro.
 
 `opts.info` → `ok <x flagIteration> <x builtin names joined by space>`.
+`opts.tablekeys` → `ok <x feature:opt,opt,…;feature:…>` (keys of the generated builtin tables).
 -/
 open Proto Options
 
@@ -73,6 +74,9 @@ def stepOpts (line : String) : String :=
   | ["opts.info"] =>
     "ok " ++ hexOfString Generated.Options.flagIteration ++ " " ++
       hexOfString (" ".intercalate builtinNames)
+  | ["opts.tablekeys"] =>
+    "ok " ++ hexOfString (";".intercalate (allBuiltins.map fun (n, t) =>
+      n ++ ":" ++ ",".intercalate (t.map (·.1))))
   | ["opts.resolve", pi, cli, cf, ef, en, ng, dc, cfg, params, probes] =>
     match stringOfField pi, stringOfField cli, optField cf, optField ef, natOfField en,
           natOfField ng, optField dc, optField cfg, stringOfField params, stringOfField probes with
